@@ -252,6 +252,49 @@ example : ctorEps (1/1000) none ≠ ctorEps (1/10000000000000) none := by decide
 example : Bal (1/10) (bracket (1/10) (1/2) [.read, .setBad] ++ [.read]) :=
   .bracket _ _ _ _ (.read _ _ (.nil _))
 
+/-! ## (f) interleavings on a shared pool -/
+
+section pool
+variable {T A Q W QT : Type}
+
+/-- C13.f `interleaving_independent`: in **any** interleaving of calls on a composite system, a loss object, an algorithm
+object and the global tolerance, each object ends in the state its own sub-history alone would have produced — the calls
+made on the other objects in between do not matter. (That the implementation's objects share no attributes is the
+regenerated fact `gen_writers_declared`; that no call writes into another object's arrays is observed by the snapshots.) -/
+theorem interleaving_independent (tbl : Key → T) (s : Pool T A Q W QT) (h : List (POp A Q W QT)) :
+    (prun tbl s h).cache = (crun tbl s.cache (h.filterMap POp.cache?)).1 ∧
+    (prun tbl s h).loss = lrun s.loss (h.filterMap POp.loss?) ∧
+    (prun tbl s h).algo = arun s.algo (h.filterMap POp.algo?) ∧
+    (prun tbl s h).atol = (arunAtol s.atol (h.filterMap POp.atol?)).1 :=
+  prun_components tbl h s
+
+/-- C13.f `interleaved_cache_transparent`: after any interleaved history on a fresh pool every cache getter still returns
+the pure table. -/
+theorem interleaved_cache_transparent (tbl : Key → T) (l : Loss A Q W) (al : Algo QT) (a : Rat)
+    (h : List (POp A Q W QT)) (k : Key) :
+    (cstep tbl (prun tbl ⟨Cache.empty, l, al, a⟩ h).cache (.get k)).2 = .table (some (tbl k)) := by
+  rw [(interleaving_independent tbl _ h).1]
+  exact cache_transparent tbl _ k
+
+/-- C13.f `interleaved_loss_reuse_refines_fresh`: … and the next dataset is read by the loss object as by a fresh one
+(both observers), whatever was interleaved. -/
+theorem interleaved_loss_reuse_refines_fresh (tbl : Key → T) (s : Pool T A Q W QT) (h : List (POp A Q W QT))
+    (c : Cfg A Q W) :
+    obsGen (configure (prun tbl s h).loss c) = obsGen (configure Loss.fresh c) ∧
+    obsFast (configure (prun tbl s h).loss c) = obsFast (configure Loss.fresh c) :=
+  ⟨gen_reuse_refines_fresh _ c, fast_reuse_refines_fresh _ c⟩
+
+end pool
+
+/-- a concrete interleaving: cache calls, two datasets, two algorithm configurations and a tolerance bracket mixed -/
+example : let h : List (POp (List (List Int) × List Int) (List Int) (List (List (List Int))) Nat) :=
+      [.cache (.get .bT), .loss witnessCustom, .atol (.set (1/2)), .algo (0, ⟨true, true, false, none⟩), .cache (.delete .bT),
+       .loss witnessIdentity, .atol (.set (1/10)), .algo (1, ⟨false, false, false, none⟩), .cache (.get .bconj)]
+    let s := prun Key.toNat ⟨Cache.empty, Loss.fresh, Algo.fresh, 1/10⟩ h
+    (s.cache .bconj, s.loss.weights, s.algo.funcProj, s.atol)
+      = (some 4, none, some (.physical 0 false none), 1/10) := by
+  decide +kernel
+
 /-! ## (e) operand mutation through views -/
 
 section projeq
